@@ -464,6 +464,7 @@ func execute(r *core.Run, sc *scenario, pols cedar.PolicyIterator, pl plan) outc
 		}
 		return nil
 	}
+	r.Count("executions")
 	out.ret = batch.Authorize(ctx, pols, sc.ents, sc.req, cb)
 	out.endStep = sim.Steps
 	out.cancelled = ctx.Cancelled
